@@ -16,6 +16,7 @@ type C01Ev struct {
 	Logger int    `json:"logger"` // which logger's tag
 	Kind   int    `json:"kind"`   // entry point
 	Level  string `json:"level,omitempty"` // Record only
+	Bare   bool   `json:"bare,omitempty"`  // no fields at all (recording appenders know such an event by its time)
 }
 
 type C01Scn struct {
@@ -127,6 +128,9 @@ func (c01) Gen(rt *rapid.T, thorough bool) any {
 			if e.Kind == 14 {
 				e.Level = rapid.SampledFrom(levelNames).Draw(rt, "evlevel")
 			}
+			if lg := s.Sys.Logs[e.Logger]; (lg.Type == "Logger" || lg.Type == "AsyncLogger") && lg.Layout == "" {
+				e.Bare = rapid.IntRange(0, 7).Draw(rt, "bare") == 0
+			}
 			evs = append(evs, e)
 		}
 		s.Events = append(s.Events, evs)
@@ -167,7 +171,7 @@ func (c01) Run(x *Exec, scn any) {
 				if e.Kind == 14 {
 					lvl = levelByName(e.Level)
 				}
-				sb := emit(t, i, tags[e.Logger], tagNames[e.Logger], EvOp{Kind: e.Kind, Size: 4}, lvl)
+				sb := emit(t, i, tags[e.Logger], tagNames[e.Logger], EvOp{Kind: e.Kind, Size: 4, Bare: e.Bare}, lvl)
 				if e.Kind == 14 {
 					sb.Level = strings.ToUpper(e.Level)
 				}
@@ -198,6 +202,12 @@ func (c01) Run(x *Exec, scn any) {
 			o.violate("log-call-panic", "C01/log-call-panic/"+e.PanicAt, "log call %s panicked: %v", e.ID, e.Panic)
 		}
 	}
+	bareByTime := map[int64]string{}
+	for _, e := range all {
+		if len(e.Fields) == 0 {
+			bareByTime[e.Time.UnixNano()] = e.ID
+		}
+	}
 	files := x.FS.AllFiles()
 	stdoutIDs := map[string]int{}
 	for _, w := range x.FS.StdoutWrites() {
@@ -225,6 +235,9 @@ func (c01) Run(x *Exec, scn any) {
 				got, lvl := map[string]int{}, map[string]string{}
 				for _, it := range getRec(r.Ref).snapshot() {
 					id, _ := itemID(it)
+					if it.Ev != nil && it.Ev.ID == "" {
+						id = bareByTime[it.Ev.TimeNs] // an event without fields is known by its (hook) time
+					}
 					got[id]++
 					if it.Ev != nil {
 						lvl[id] = it.Ev.LevelName
